@@ -42,6 +42,14 @@ def harness_bounds(prop, name):
 HASHMAP = ("state lives in hashbrown HashMap/HashSet (a single insert did not finish in >10 min under CBMC, "
            "DESIGN.md section 4)")
 NA = {
+    "C02": "the counters themselves (ConnectionCounters inc/dec, four u32 fields) are trivially decidable, but every realistic breakage sits where Pool::poll / Swarm decide WHICH counter to touch (HashMap<ConnectionId,..>/HashMap<PeerId,..> state, FuturesUnordered, channels): both independently seeded changes (pending counter leaked on a failed identity check; phantom peer entry after NotifyHandler::Any) are at such call sites, so a kernel-only check would claim the property while detecting neither",
+    "C03": "uniqueness across threads is the quantifier: Kani executes atomics sequentially, so a non-atomic load/store rewrite of ConnectionId::next (seeded change A) is invisible, and the other seeded change (id handed back after a denied inbound connection) lives in Swarm::handle_transport_event; a sequential kernel check would detect neither",
+    "C09": "rank_dials walks every Multiaddr a dozen times with iter().any(..); Multiaddrs with three or more components or a DNS string component do not finish under CBMC (measured on C13/C22: every component read back from the heap buffer forks symbolic execution), and the property's alphabet (quic-v1, webtransport, relay, DNS names) needs exactly those; the suspected DNS-localhost inversion in is_global_addr is therefore not decidable here and not reported",
+    "C17": "the property is about ciphertext integrity and write/read chunking through snow + the Output/Codec I/O state machines; the only kernel within reach (2-byte length prefix encode/decode) is not where realistic breakage sits (both seeded changes are in Output::poll_write and Codec::decode_eof), so a kernel-only check would claim the property while detecting neither",
+    "C44": "the conversions go through prost messages with Vec<u8>/Vec<Peer> fields: prost's field parser on symbolic bytes forks without bound (measured on C31/C57: recursive group skipping, symbolic-length Vec fills), and KadPeer carries Vec<Multiaddr> (measured infeasible on C12)",
+    "C49": "CopyFuture copies through two 8 KiB BufReaders (arrays far beyond CBMC's field-sensitivity limit, contents become symbolic) and is driven by hand-polling futures with wakers; the smaller hand-polled probe (multistream listener, design phase) did not finish in 10 min, so this was not built",
+    "C50": "filter_valid_addrs only accepts addresses ending in /p2p/<peer id> (>= 3 components incl. a 38-byte multihash component) and the interesting inputs have two IP components (>= 4 components); Multiaddrs with three or more components do not finish under CBMC (measured on C13)",
+    "C52": "check_limit (current >= limit) is trivially decidable, but the limits are enforced by WHICH set sizes the behaviour passes to it (five HashSet<ConnectionId> / HashMap<PeerId,HashSet<..>> fields updated in on_swarm_event): both independently seeded changes (per-peer set dropped on any close; unknown-peer dials skipping the pending-outgoing check) are there, so a kernel-only check would claim the property while detecting neither; a single hashbrown insert is beyond CBMC here",
     "C01": "lifecycle pairing lives in Pool::poll/Swarm::handle_pool_event: " + HASHMAP + ", FuturesUnordered, mpsc channels and an executor across >=2 Swarms; Kani does not model concurrency",
     "C04": "Swarm::dial needs a constructed Swarm (pool/listener hash maps, HashSet address dedup); the condition matrix is inline in that method, not callable separately",
     "C05": "the peer-id check is a closure inside Pool::poll (same state as C01)",
